@@ -51,7 +51,7 @@ def do_case(ctx, inp):
 
 
 def run(ctx):
-    n_models = (70 if ctx.quick else 900) * (3 if ctx.search else 1)
+    n_models = (200 if ctx.quick else 900) * (3 if ctx.search else 1)
     for _ in range(n_models):
         a, o, t = gen_valid(ctx.rng, ctx.quick, prefix_p=0.2)
         for _ in range(3):
